@@ -103,6 +103,14 @@ class Oracle(object):
         pairs = live["pairs"]
         formed = live["D"].S[pairs] if live["via"] == "indices" else pairs
         self.optimal(m, h, formed, live["y"], cp, "calibrate_threshold")
+      elif h.defined and not live.get("fault_fired") and len(set(np.asarray(live["y"]).tolist())) == 2 \
+          and ev["outcome"] not in ("exc:PreprocessorError",):
+        # valid parameters, a fitted estimator, a validation set with both labels: every
+        # strategy has an admissible cut-off (reject all / accept all), so there is an optimum
+        raise Violation("calibration_raises", "strategy=%s,exc=%s" % (cp.get("strategy", "accuracy"),
+                                                                    ev["outcome"].replace("exc:", "")),
+                        "calibrate_threshold(%r) raised %s on a validation set with both labels: %s"
+                        % (cp, ev["outcome"], str(live.get("exc"))[:160]))
     elif kind == "fit" and not op.get("malformed") and ev.get("outcome") != "skip":
       cp = live["kwargs"].get("calibration_params")
       if cp is None:
